@@ -98,6 +98,16 @@ func (c04) RunBatch(ctx *core.Ctx, batch int) {
 				ctx.Count("edge_number_trees", 1)
 			}
 		}
+		// value lists of up to 70000 members: as many parameters as values, whatever their number
+		for _, n := range gen.Sizes([]int{255, 256, 257, 32767, 32768, 32769, 65535, 65536, 65537}, 200, 70000) {
+			vals := make([]qt.Value, n)
+			for i := range vals {
+				vals[i] = qt.Int(i)
+			}
+			vals[n/2] = qt.Phrase("x y")
+			c04Tree(ctx, qt.List("n", vals...), 0, true)
+			ctx.Count("big_lists", 1)
+		}
 		for _, t := range qt.RelationTrees() {
 			c04Tree(ctx, t, 1, false)
 			ctx.Count("relation_trees", 1)
